@@ -21,7 +21,7 @@ ASSUMPTIONS = ['between the last row\'s shift reaching fchans and the implemente
                'instead of tchans-1) either rejection or success is accepted',
                'row shifts within 1e-6 of a rounding tie are excluded and counted',
                'normalised output is only checked for non-constant content']
-REQUIRED_CLASSES = ['derived_parent', 'dedrift_exact_ties', 'op=slice', 'op=dedrift', 'op=integrate', 'asc', 'desc', 'dedrift_neg', 'dedrift_pos',
+REQUIRED_CLASSES = ['slice_bounds_numpy_integers', 'derived_parent', 'dedrift_exact_ties', 'op=slice', 'op=dedrift', 'op=integrate', 'asc', 'desc', 'dedrift_neg', 'dedrift_pos',
                     'dedrift_rejected', 'dedrift_meta', 'integrate_frame', 'integrate_norm', 'tone']
 
 
@@ -42,7 +42,8 @@ def strategy_(draw, tier):
     if op == 'slice':
         l = draw(st.integers(0, N - 1))
         r = draw(st.integers(l + 1, N))
-        c.update(l=l, r=r)
+        # bounds arrive as Python ints or as numpy integers (np.argmax, array arithmetic)
+        c.update(l=l, r=r, bound_type=draw(st.sampled_from(['int', 'int', 'np.int64', 'np.int32', 'np.intp'])))
     elif op == 'dedrift':
         # total shift over the frame, in channels, relative to the band: below, near and beyond the limit
         tot = draw(st.one_of(gen.finite(0, 0.9), gen.finite(0.9, 1.2), st.just(0.0)))
@@ -145,7 +146,11 @@ def run_case(case, ctx):
         if N != case['g']['fchans']:       # derived parent: rescale the drawn bounds
             l = l * N // case['g']['fchans']
             r = max(l + 1, min(N, r * N // case['g']['fchans']))
-        ok, ch = core.call(obs, 'get_slice', stg.get_slice, fr, l, r)
+        bt = case.get('bound_type', 'int')
+        conv = {'int': int, 'np.int64': np.int64, 'np.int32': np.int32, 'np.intp': np.intp}[bt]
+        if bt != 'int':
+            obs.cls('slice_bounds_numpy_integers')
+        ok, ch = core.call(obs, 'get_slice', stg.get_slice, fr, conv(l), conv(r))
         if not ok:
             return obs
         obs.nontrivial = N >= 4 and (r - l) < N
@@ -159,7 +164,7 @@ def run_case(case, ctx):
         if not custom_ts and not np.array_equal(np.asarray(ch.ts), np.asarray(fr.ts)):
             obs.fail('slice:ts', '')
         check_common(obs, 'slice', fr, ch)
-        ok, ch2 = core.call(obs, 'Frame.get_slice', fr.get_slice, l, r)
+        ok, ch2 = core.call(obs, 'Frame.get_slice', fr.get_slice, conv(l), conv(r))
         if ok and not np.array_equal(ch2.data, before[:, l:r]):
             obs.fail('slice:method', '')
         check_copy(obs, 'slice', fr, ch, before)
